@@ -61,4 +61,41 @@ CLAIMS = {
   "technique": "layout interpretation: the sample region as a sort-permutation of the two queues; key shape analysis",
   "text": "The sample region of every A/V layout is sorted(key)[video queue ++ audio queue] with key = (timestamp field, rank Video<Audio, queue index): by std's sort_by_key contract this is the merge by timestamp with video first on ties; the same schedule drives offsets and streaming; per-track order is queue order.",
   "note": "Relies on the documented contract of slice::sort_by_key (stable, ordered by key)."},
+ "C03": {
+  "technique": "data-dependence slices on MIR + symbolic moov production (durations / composition offsets)",
+  "text": "Decides the shape behind the timing property for all timestamp sequences: every tick handed to the inner writer is cast(round(own timestamp parameter * 90000)) with no state in its slice (no drift by construction); the duration back-patch is this-minus-previous of the writer's monotone timestamp, stored to the last sample and the last-delta field; "
+          "the final sample's fall-back is the track's own last delta; mdhd duration is the sum over the list behind stts; composition offsets are pts-dts and ctts is conditional on the fold of `offset != 0` over exactly those offsets.",
+  "note": "Not decided: arithmetic of the run-length encoders and f64 rounding for particular cadences (value-level)."},
+ "C04": {
+  "technique": "guard extraction (dominating switch edges + operand-role slices) on MIR; total-match error map via HIR interpretation; typestate dominance",
+  "text": "For every builder / write / finish entry point and the inner writers: each documented precondition has an error exit of the documented variant whose nearest dominating guard is the documented predicate on the documented operands (relation canonicalised incl. strictness, invariant under a<=b <-> !(a>b)); no undocumented rejection exists; "
+          "success exits lie on the not-finished edge; the internal->public error conversion equals the documented table; sibling video entry points maintain each other's monotonicity state (defect found and repaired); ADTS/Opus validators are guarded on the frame bytes / codec arm.",
+  "note": "Table transcribed from docs/contract.md and the property statement (lib/mx/rules/c04.py TABLE). NaN/sub-tick behaviour of f64 comparisons is value-level and not decided. Consuming finish() is a type-level fact (thorough-tier witness)."},
+ "C07": {
+  "technique": "layout interpretation (stsd selection, records) + HIR evaluation of writer/builder functions + MIR guard extraction for parameter-set slots",
+  "text": "Sample-entry type is selected by the config variant, the variant is built from the configured codec by the matching extractor, fall-backs and the fragmented selection chain are checked per codec; every parameter-set slot receives the iterated NAL unit itself, only while empty and only for the spec's NAL type constant (7/8, 32/33/34); "
+          "audio entry fields and the AudioSpecificConfig/dOps derive from the one audio configuration; av1C/vpcC field bytes are values of the parsed configuration. Two genuine defects recorded (zero-frame non-H.264 fall-back to avc1; constant fragmented av1C fields).",
+  "note": "Not decided: bit-level correctness of the AV1 sequence-header and VP9 header parsers (value-level). Shares the record-layout instances with C19."},
+ "C09": {
+  "technique": "layout interpretation: enumeration of the audio trak production for a track-start offset mechanism",
+  "text": "Necessary condition only: a track timeline built from stts starts at 0, so preserving an A/V start offset needs an edit list (or a field depending on both first timestamps) in the audio trak. The rule enumerates the audio trak production of every A/V layout; on the pinned tree no mechanism exists: a genuine defect, recorded as a known finding (not small to repair).",
+  "note": "Decides that the property cannot hold in general while the mechanism is absent; when one appears, presence and data dependence are checked, not its +-1 tick arithmetic (value-level)."},
+ "C11": {
+  "technique": "layout interpretation of the media-segment and init-segment builders + MIR slices in flush_segment",
+  "text": "trun per-sample fields have the required operator shape (duration = next.dts - this.dts, cts = pts - dts signed, flags constants with the non-sync bit exactly on the non-sync arm, size = len(data)); tfdt/trun are version 1; the base decode time handed to the builder depends on the segment's own samples (defect found and repaired: it was estimated from the previous segment); "
+          "the init segment is built from the construct-time config only, the config has no writer after construction, and the cache is consulted first.",
+  "note": "Not decided: numeric monotonicity of base times and the 3000-tick default of a lone sample."},
+ "C14": {
+  "technique": "layout interpretation of the converters + exhaustive evaluation of the *extracted* ADTS bit-field formulas + MIR guard extraction",
+  "text": "Both Annex-B converters have exactly the production rep(iter(data)){skip empty | be32(len(nal)) ++ nal} ++ whole-input fall-back, are identical to each other, and the iterator yields sub-slices of its input; the ADTS validator returns frame[h..L] where the extracted expressions for h and L are decided equal to the spec formulas over all values of the bytes they read, under the guards h <= L <= len(frame).",
+  "note": "Not decided: that the start-code scanner finds exactly the spec's 3/4-byte start codes in every byte string (a for-all over strings with overlapping patterns; value-level)."},
+ "C18": {
+  "technique": "layout interpretation: user-data production vs iTunes metadata layout; non-interference of the metadata parameter over the whole moov production",
+  "text": "udta is emitted iff the item list is non-empty and has the layout udta>meta(0)>hdlr(mdir)+ilst>items with data(type 1, locale 0) followed by the title's bytes verbatim; the `metadata` parameter occurs nowhere in the moov production except under udta and in the mdhd language field; both mdhd language fields derive from metadata.language with the `und` default.",
+  "note": "Not decided: the calendar conversion and the 5-bit language packing as arithmetic functions; termination for huge creation times is C12."},
+ "C20": {
+  "technique": "MIR rules on the bin crate: single-consumer flow of the output File, argument slices, dominance by the Ok edge of finish, store inventory of the verdict flag, loop-variant guard extraction",
+  "text": "The File created for the output path is consumed only by MuxerBuilder::new and nothing else in the mux command writes files; every builder/muxer argument is sourced from the matching CLI option (documented default codecs), one frame at t=0 with key=true; both completion messages are dominated by the Ok edge of finish() and all library Results are propagated, main returns the Result; "
+          "the validate verdict is initialised true, only stored false, and stored false on every error branch, the hex validator rejects under {empty, odd, non-hex}; the info box walk advances by a size guarded non-zero and is bounded by the buffer length.",
+  "note": "Not decided: byte equality of the CLI output with an in-process library run; clap's own parsing."},
 }
